@@ -24,22 +24,26 @@ CLAIMED = {
              'ckb-types Block/BlockView; request-match predicates, verify_extra_hash, add_block against specifications. RPC read paths outside the claim',
              'C02', MM + ' + ' + KM),
     'C03': c(['K-model'],
-             'bounded model checking of the INDEX-WRITER STEP only: one Storage::filter_block call on an arbitrary small block yields exactly the '
-             'ground-truth index delta; the key encoding is injective and order-preserving. That sync delivers every block, restarts, interleavings, '
-             'rollback and add_fetched_tx are outside the claim', 'C03', KM),
+             'bounded model checking of the per-step obligations along filter batch -> matched record -> proved block -> index writer -> query: one Storage::filter_block call on an '
+             'arbitrary small block yields exactly the ground-truth index delta (header rows always rewritten); add_fetched_header / add_fetched_tx write one atomic batch; the key encoding is '
+             'injective and order-preserving; the filter batch is matched against every script whose range it touches and the filtered height only advances over verified filters (shared with C06); '
+             'only proved, header-committed blocks are indexed, all blocks of a record, in block-number order (shared with C02); get_cells returns exactly the indexed cells (shared with C13). '
+             'That sync delivers every block (liveness), restarts, interleavings and rollback_to_block are outside the claim', 'C03', KM),
     'C04': c(['K-model', 'M'],
              'bounded model checking of the fork-switch DECISION and BOOKKEEPING step (commit_prove_state with an ordered log of every effect, '
-             're-basing of proof requests, gating of the long-fork abort). Whether rollback_to_block restores the index, and liveness after the switch, '
+             're-basing of proof requests, gating of the long-fork abort), of the per-peer filter-hash cache being dropped on every fork switch (update_prove_state; child states inherit the reorg '
+             'headers) and of the index writer overwriting the number -> hash mapping left by the abandoned branch. Whether rollback_to_block restores the index, and liveness after the switch, '
              'are declined', 'C04', KM + ' + ' + MM),
     'C05': c(['K-model', 'K-real'],
              'bounded model checking of per-check COMPLETENESS: the answer an honest RFC-44 prover builds is accepted by the shape check, legal '
              'difficulty histories by the difficulty checks, documented events by the state machine. One recorded known finding (KF-1). Convergence '
              '(liveness over unbounded multi-peer histories) is declined', 'C05', KM + ' + ' + KR),
-    'C06': c(['K-model'],
+    'C06': c(['K-model', 'M'],
              'bounded model checking of the real text of BlockFiltersProcess::execute (ground truth = arbitrary true filter-hash array; accepted prefix '
-             'authentic, chained from the right parent, recorded hashes at matching indices) and of update_latest_block_filter_hashes. GCS matching and '
-             'the hash uninterpreted; attribution of the DOWNLOADED block to the filter height is not decided (outside the claim, see DESIGN 11)',
-             'C06', KM),
+             'authentic, chained from the right parent, recorded hashes at matching indices), of update_latest_block_filter_hashes, BlockFilterHashesProcess::execute, check_filters_data, and of the '
+             'blocks-proof handler marking a matched block proved only for a received, MMR-verified header (never a hash reported missing). GCS matching and '
+             'the hash uninterpreted; attribution of the DOWNLOADED block to the filter HEIGHT is a recorded known finding (KF-4)',
+             'C06', KM + ' + ' + MM),
     'C07': c(['K-model'],
              'bounded model checking of the real text of finalize_check_points (one tick from an arbitrary state; one agreeing quorum set on every '
              'newly final value; range starts at last+1; index strictly increases; contradicting peers banned), required_peers_count and '
@@ -57,34 +61,38 @@ CLAIMED = {
              'peer-driven kernels of the four protocols, within each harness bound; the overflow guard dominates every use of total_difficulty(); the only '
              'explicit panic of the proof handler is behind the long-fork flag. molecule decoding, tentacle, RocksDB, CKB-VM and unlisted handler bodies '
              'outside the claim', 'C10', KM + ' + ' + KR + ' + ' + MM),
-    'C11': c(['K-model'],
+    'C11': c(['K-model', 'M'],
              'bounded model checking of the real PeerState transition code: one arbitrary event from an ARBITRARY state (inductive step, so event sequences '
-             'of any length) against the documented transition table and frame conditions; multi-peer interleavings and the network disconnect outside',
-             'C11', KM),
+             'of any length) against the documented transition table and frame conditions; get_peers_which_have_timeout selects exactly the peers with an overdue request / an unchanged last state; '
+             'a repeated last state changes nothing (its age is not refreshed); in-flight fetches are released on a rejected / new-last-state reply (MIR, shared with C16). '
+             'Multi-peer interleavings and the network disconnect outside', 'C11', KM + ' + ' + MM),
     'C12': c(['K-model'],
              'bounded model checking of the real text of SendLastStateProcess::execute, update_prove_state_to_child, commit_prove_state and new_child over '
              'models of Storage/Peers with an ordered log of every effect: tip stored only with strictly greater, truthful total difficulty of a linked '
-             'child / proven header. Restart through RocksDB and multi-peer sequences outside', 'C12', KM),
+             'child / proven header; the proof handler checks the total difficulty of a sampled proof against the previously proved state whatever else the response carries (slice of execute); '
+             'the remembered last-N selection; the response shape check (shared with C01). Restart through RocksDB and multi-peer sequences outside', 'C12', KM),
     'C13': c(['K-model'],
              'bounded model checking of the real text of get_cells / get_cells_capacity / build_query_options / build_filter_options and the key encoding over a read-only '
              'sorted snapshot model (<= 3 rows, ordered seek in both directions): exactly the entries matching the search key and every filter, in key order, descending = reverse '
-             'of ascending, page-by-page through last_cursor exactly once, capacity = sum over exactly those cells with the stored tip; key bytes order = numeric order. '
+             'of ascending (the descending seek key reaches above every key up to the documented maximum prefix size), page-by-page through last_cursor exactly once, capacity = sum over exactly those cells with the tip of the SAME snapshot; key bytes order = numeric order. '
              'get_transactions (grouping) and more than 3 rows are outside the claim', 'C13', KM),
     'C14': c(['K-real'],
              'bounded model checking on the REAL functions and 256-bit numext arithmetic: completeness for legal histories (narrow operands), soundness '
-             '(exact within one epoch / across one switch, tau envelope otherwise), no abort for arbitrary peer-supplied numbers; <=3 epoch switches',
-             'C14', KR),
+             '(exact within one epoch / across one switch incl. epoch difficulties within tau^n, tau envelope otherwise), no abort for arbitrary peer-supplied numbers; <=3 epoch switches '
+             '(quick tier: <= 1 switch, 8-bit block difficulties for the one-switch soundness / completeness variants)', 'C14', KR),
     'C15': c(['K-model'],
              'bounded model checking of the real text of sampling.rs (narrowed widths, libm pow/log as arbitrary values in their documented range) and of '
              'build_prove_request_content: well-formedness of every request. "At least as many samples as the FlyClient bound requires" is declined '
              '(no bit-precise libm in the solver)', 'C15', KM),
     'C16': c(['K-model', 'M'],
              'bounded model checking of the fetch bookkeeping (one arbitrary operation from an arbitrary table state) and of the status decision of '
-             'fetch_header / fetch_transaction; store only behind the proof checks (MIR, shared with C02). (transaction, block) pairing after a fork outside',
+             'fetch_header / fetch_transaction; store only behind the proof checks (MIR, shared with C02); in-flight fetches released / owned (MIR); add_fetched_header / add_fetched_tx always '
+             '(re)write the header row and the number -> hash mapping of the proved block in one batch with the transaction row, which is what get_transaction resolves the block through',
              'C16', KM + ' + ' + MM),
     'C18': c(['K-model', 'M'],
-             'bounded model checking of the real text of PendingTxs (one arbitrary operation from an arbitrary pool state) and "push only on the Ok edge of '
-             'verify_tx" on MIR. Acceptance only of verifiable transactions (RocksDB resolution, CKB-VM) is declined', 'C18', KM + ' + ' + MM),
+             'bounded model checking of the real text of PendingTxs (one arbitrary operation from an arbitrary pool state), of resolve_tx + parse_dep_group_data (Ok iff every input / dep resolves to a live cell '
+             'and no out point is spent twice; exact resolved lists), and MIR queries: push only on the Ok edge of verify_tx, send_transaction / estimate_cycles return Ok only through it. One recorded known finding (KF-5). '
+             'Script execution (CKB-VM), capacity / since rules of ckb-verification are declined', 'C18', KM + ' + ' + MM),
 }
 NOT_APPLICABLE = {
     'C17': 'concurrency: Kani/CBMC does not model Rust threads and no concurrent solver-based engine is available in this sandbox; only lock-discipline facts '
